@@ -174,7 +174,7 @@ func c14Exec(w c14World, idx []int, prefix []int, solo bool) (*sched.Run, []c14O
 	run := runScheduled(prefix, 2000000, false, func(r *sched.Run, h schedHooks) {
 		verifsync.SetRegistry(true)
 		verifsync.ResetRegistry()
-		verifsync.SetPoison(true)
+		verifsync.SetPoison(!solo) // the solo baseline is the serial specification: it runs on a benign pool, so that a use after release (which garbles a run even alone once released buffers are poisoned) shows as a difference
 		backends := map[string]*world.Backend{}
 		closers := map[string]bool{}
 		ids := make([]string, len(idx))
@@ -266,7 +266,7 @@ func init() {
 		Rule: "Harness A: every pair (quick) / pair and triple (thorough) of RPCs from two worlds (7 + 4 RPCs of mixed protocols, codecs and compressions incl. gzip on both legs, JSON<->proto re-encoding, corrupt gzip, over-limit, aborted upload, undecodable message, streams) " +
 			"runs concurrently on one shared Transcoder, one controlled thread per RPC; scheduling points are all operations on shared state (every sync.Pool Get/Put and mutex operation, through the verifsync shim) and every environment call (body read, header/body write, flush); all schedules with at most P preemptions are explored (P=2 quick, 3 thorough for pairs). " +
 			"A fifth world has REST google.api.HttpBody uploads (the decoded message aliases the pooled buffer) toward an uncompressed gRPC target; handlers close the request body twice; one response inflates but does not decode. " +
-			"Oracle: each RPC's semantic outcome (client and backend side) equals its solo outcome; no pool element is Put twice or handed to two holders; poison written into every Put buffer never appears in any output. " +
+			"Oracle: each RPC's semantic outcome (client and backend side) equals its solo outcome on a pool that does not poison released buffers; no pool element is Put twice or handed to two holders; poison written into every Put buffer never appears in any output. " +
 			"Harness B: one bidirectional stream with a handler-reader and a handler-writer thread, a request-side fault (bad flags, oversize, transport cut, corrupt gzip) at message 0 or 1 while the writer emits two messages; every schedule within the bound must give a client-visible result that some serial order of the handler's calls gives (computed by the same explorer with handler calls made atomic). " +
 			"A state is a scheduling decision point; a trace is one complete schedule of the real implementation. Non-trivial = distinct schedule in which the threads interleaved on the pools (at least one context switch).",
 		Assume: []string{"memory-model level data races are only sampled by a separate free-running -race pass, not enumerated",
